@@ -18,11 +18,11 @@ func rpmSignatureAttributes(sig []byte) []Attribute {
 	case *packet.Signature:
 		attrs = append(attrs, Attribute{"Algorithm", gpgAlgorithmName(s.PubKeyAlgo, s.Hash)})
 		if s.IssuerKeyId != nil {
-			attrs = append(attrs, Attribute{"Key id", fmt.Sprintf("%X", *s.IssuerKeyId)})
+			attrs = append(attrs, Attribute{"Key id", fmt.Sprintf("%016X", *s.IssuerKeyId)})
 		}
 	case *packet.SignatureV3:
 		attrs = append(attrs, Attribute{"Algorithm", gpgAlgorithmName(s.PubKeyAlgo, s.Hash)})
-		attrs = append(attrs, Attribute{"Key id", fmt.Sprintf("%X", s.IssuerKeyId)})
+		attrs = append(attrs, Attribute{"Key id", fmt.Sprintf("%016X", s.IssuerKeyId)})
 	}
 	return attrs
 }
